@@ -2,9 +2,10 @@
 # usage: tools/record_fix.sh <Fnn> <props,comma> <rule> "<what failed>" [demo.py]
 # after the fix commit is HEAD of /repo: writes seeded/revert-<F>/, the fixed: line, copies the demo to repro/demos/<F>.py
 F="$1"; PROPS="$2"; RULE="$3"; WHAT="$4"; DEMO="$5"
-H=$(git -C /repo log --format=%h -1)
+# COMMIT=<hash> selects an older fix commit (default HEAD)
+H=$(git -C /repo log --format=%h -1 ${COMMIT:-HEAD})
 mkdir -p /verif/seeded/revert-$F
-git -C /repo diff HEAD HEAD~1 > /verif/seeded/revert-$F/patch.diff
+git -C /repo diff $H $H~1 > /verif/seeded/revert-$F/patch.diff
 [ -n "$DEMO" ] && cp "$DEMO" /verif/repro/demos/$F.py
 FIRST=$(echo "$PROPS" | cut -d, -f1)
 python3 - "$F" "$PROPS" "$RULE" "$WHAT" "$H" "$FIRST" <<'PY'
